@@ -19,6 +19,7 @@ CASES = [
     'item_in_enum_no_name', 'item_in_db_enum_no_name', 'column_in_table_no_name', 'index_in_table_no_subjects', 'enum_in_db_no_schema',
     'ref_mixed_same_fullname_table1', 'ref_mixed_same_fullname_dbml', 'ref_in_db_detached_sql', 'ref_in_db_detached_dbml',
     'ref_composite_detached_trailing_sql', 'ref_composite_detached_trailing_dbml', 'ref_no_col1', 'ref_no_col2', 'table_in_db_no_schema',
+    'ref_mixed_lookalike_table1', 'ref_mixed_lookalike_table2', 'ref_mixed_lookalike_dbml', 'table_deleted_by_twin_get_refs',
 ]
 
 
@@ -137,6 +138,36 @@ def refused(K=2):
             twin = Table('t', columns=[Column('id', 'int'), Column(nm, 'int'), Column('extra', 'int')])
             r = Reference('>', [t1.columns[0], twin.columns[1]], [t2.columns[0], t2.columns[1]])
             return ((lambda: r.table1) if case.endswith('table1') else (lambda: r.dbml)), ex.DBMLError
+        if case in ('ref_mixed_lookalike_table1', 'ref_mixed_lookalike_table2', 'ref_mixed_lookalike_dbml'):
+            # a different table with the same schema, name, alias and column names (another revision of it): only a type,
+            # a flag or the note differs
+            if a['p_inline']:
+                look = Table('t', columns=[Column('id', 'bigint'), Column(nm, 'int')])
+            else:
+                look = Table('t', columns=[Column('id', 'int'), Column(nm, 'int', not_null=True)], note='rev 2')
+            if a['p_edit']:
+                look.columns[0].pk = True
+            if case.endswith('table2'):
+                r = Reference('<', [t2.columns[0], t2.columns[1]], [look.columns[0], t1.columns[1]])
+                return (lambda: r.table2), ex.DBMLError
+            r = Reference('>', [t1.columns[0], look.columns[1]], [t2.columns[0], t2.columns[1]])
+            return ((lambda: r.table1) if case.endswith('table1') else (lambda: r.dbml)), ex.DBMLError
+        if case == 'table_deleted_by_twin_get_refs':
+            # the table is removed from its database through an equal but distinct object (the same table from a second
+            # build of the same model): the stored table is the one that becomes detached
+            if not a['p_add']:
+                return None, None
+            twin = Table('t', columns=[Column('id', 'int'), Column(nm, 'int')])
+            if a['p_edit']:
+                twin.columns[0].pk = True
+                twin.add_index(Index([twin.columns[0]], name=nm))
+            try:
+                db.delete(twin)
+            except Exception:
+                return (lambda: None), ex.DBMLError      # refusing the twin is not what this library does: reported as a failure
+            if a['p_inline']:
+                return (lambda: t1.columns[1].get_refs()), ex.UnknownDatabaseError
+            return (lambda: t1.get_refs()), ex.UnknownDatabaseError
         if case in ('ref_in_db_detached_sql', 'ref_in_db_detached_dbml'):
             if not a['p_add']:
                 return None, None
